@@ -92,12 +92,14 @@ def build(variant="default", fuzzer=False, extra_defs=(), jobs=16, quiet=True):
     """Returns (dir, [objects]). Raises on compile failure."""
     extra = (variant, fuzzer, tuple(extra_defs), tuple(BASE_FLAGS))
     hid = tree_hash(extra)
-    out = os.path.join(BUILD, "sut", f"{variant}{'-fz' if fuzzer else ''}-{hid}")
+    # builds of a tree other than /repo (VERIF_REPO set for a trial) live in their own directory, so that they never prune /repo's build
+    sut_name = "sut" if REPO == "/repo" else "sut-" + hashlib.sha256(REPO.encode()).hexdigest()[:8]
+    out = os.path.join(BUILD, sut_name, f"{variant}{'-fz' if fuzzer else ''}-{hid}")
     stamp = os.path.join(out, "OK")
     if os.path.exists(stamp):
         return out, sorted(os.path.join(out, f) for f in os.listdir(out) if f.endswith(".o"))
     # prune old builds of the same variant (disk hygiene)
-    sut_root = os.path.join(BUILD, "sut")
+    sut_root = os.path.join(BUILD, sut_name)
     os.makedirs(sut_root, exist_ok=True)
     for d in os.listdir(sut_root):
         if d.startswith(f"{variant}{'-fz' if fuzzer else ''}-") and d != os.path.basename(out):
